@@ -29,6 +29,22 @@ var c10Bases = map[string]walProg{
 	"frag-last":  {"a:small", "a:rec+1"},
 }
 
+// further base logs of the thorough tier
+var c10BasesThorough = map[string]walProg{
+	"frag-exact":  {"a:small", "a:rem=M", "a:small"},
+	"frag-frag":   {"a:rec+1", "a:bigkey-del", "a:small"},
+	"batch-big":   {"a:small", "b:b3x30k", "a:del"},
+	"del-frag":    {"a:small", "a:del-rem=M", "a:emptyval"},
+	"four-files":  {"a:small", "rotate", "a:rec+1", "a:small", "rotate", "b:b3", "rotate", "a:small", "a:del"},
+}
+
+func c10Prog(name string) walProg {
+	if p, ok := c10Bases[name]; ok {
+		return p
+	}
+	return c10BasesThorough[name]
+}
+
 // record boundaries of a WAL file, parsed independently of the implementation.
 type walRec struct {
 	Off, End int // [Off,End)
@@ -53,6 +69,7 @@ func parseWalFile(b []byte) []walRec {
 }
 
 type c10Base struct {
+	Older    bool // the target is not the newest file: entries of newer files are optional
 	Name     string
 	Dir      string // pristine copy
 	Exp      []walEnt
@@ -60,11 +77,41 @@ type c10Base struct {
 	Data     []byte // its content
 	Recs     []walRec
 	InNewest int // number of logical entries in the newest file
+	Stride   int // position stride for files > 4 KiB
+	// damage target other than the newest file (thorough tier): entries of older files come first
+	Before int // number of logical entries in files older than the target
+}
+
+// retarget makes the k-th log file (0 = oldest) the damage target.
+func (b *c10Base) retarget(k int) error {
+	files, _ := wal.FindWALFiles(filepath.Join(b.Dir, "wal"))
+	if k >= len(files)-1 {
+		return fmt.Errorf("no older file %d", k)
+	}
+	before := 0
+	for i := 0; i < k; i++ {
+		d, _ := os.ReadFile(files[i])
+		for _, r := range parseWalFile(d) {
+			if r.EntryEnd {
+				before++
+			}
+		}
+	}
+	data, _ := os.ReadFile(files[k])
+	b.Newest, b.Data, b.Recs, b.Before = filepath.Base(files[k]), data, parseWalFile(data), before
+	b.InNewest = 0
+	for _, r := range b.Recs {
+		if r.EntryEnd {
+			b.InNewest++
+		}
+	}
+	b.Older = true
+	return nil
 }
 
 func c10Build(name string, root string) (*c10Base, error) {
 	dir := filepath.Join(root, "base-"+name)
-	exp, w, err := runWalProg(dir, c10Bases[name], true, config.SyncImmediate)
+	exp, w, err := runWalProg(dir, c10Prog(name), true, config.SyncImmediate)
 	if err != nil {
 		return nil, err
 	}
@@ -89,6 +136,9 @@ func c10Build(name string, root string) (*c10Base, error) {
 // required returns how many entries of Exp must be recovered when the first damaged byte of the newest file is p.
 func (b *c10Base) required(p int) int {
 	n := len(b.Exp) - b.InNewest
+	if b.Older {
+		n = b.Before
+	}
 	for _, r := range b.Recs {
 		if r.End <= p && r.EntryEnd {
 			n++
@@ -116,7 +166,11 @@ func (b *c10Base) positions(trunc bool) []int {
 				}
 			}
 		}
-		for i := 0; i < len(b.Data); i += 251 {
+		stride := 251
+		if b.Stride > 0 {
+			stride = b.Stride
+		}
+		for i := 0; i < len(b.Data); i += stride {
 			set[i] = true
 		}
 	}
@@ -349,9 +403,21 @@ func c10Unit(unit string, env *fw.Env) *fw.Result {
 		res.HarnessErr = "cannot build base log " + name + ": " + err.Error()
 		return res
 	}
-	ps := b.positions(kind == "trunc")
+	if env.Thorough {
+		b.Stride = 3
+	}
+	evalKind := kind
+	if strings.HasPrefix(kind, "old") {
+		var k int
+		fmt.Sscanf(kind, "old%d", &k)
+		if err := b.retarget(k); err != nil {
+			return res // this base has no such file
+		}
+		evalKind = "byte"
+	}
+	ps := b.positions(evalKind == "trunc")
 	classes := 1
-	if kind == "byte" {
+	if evalKind == "byte" {
 		classes = 5
 	}
 	for i, p := range ps {
@@ -367,7 +433,7 @@ func c10Unit(unit string, env *fw.Env) *fw.Result {
 			// the engine-level part is run for every truncation and for header bytes / every 8th payload byte of overwrites
 			full := true
 			fw.Progress(fmt.Sprintf("wal-damage base=%s kind=%s pos=%d class=%d", name, kind, p, c))
-			problem := c10Eval(b, root, kind, p, c, full)
+			problem := c10Eval(b, root, evalKind, p, c, full)
 			if problem == "skip" {
 				continue
 			}
@@ -379,12 +445,12 @@ func c10Unit(unit string, env *fw.Env) *fw.Result {
 				cls := strings.SplitN(problem, ":", 2)[0]
 				where := c10Where(b, p)
 				res.Violate(fw.FP("C10", name, kind, cls, where), fmt.Sprintf("wal damage base=%s %s at %d/%d (class %d, %s): %s", name, kind, p, len(b.Data), c, where, problem), unit,
-					map[string]any{"kind": "wal-damage", "base": name, "damage": kind, "pos": p, "class": c, "prog": c10Bases[name]})
+					map[string]any{"kind": "wal-damage", "base": name, "damage": kind, "pos": p, "class": c, "prog": c10Prog(name)})
 			}
 		}
 	}
 	if shard == 0 {
-		res.Sample(map[string]any{"base": name, "program": c10Bases[name], "newest_file_bytes": len(b.Data), "records": len(b.Recs), "damage": kind, "positions": len(ps)})
+		res.Sample(map[string]any{"base": name, "program": c10Prog(name), "newest_file_bytes": len(b.Data), "records": len(b.Recs), "damage": kind, "positions": len(ps)})
 	}
 	return res
 }
@@ -426,25 +492,40 @@ func init() {
 		ID:    "C10",
 		Level: "fault_enumeration",
 		Rule: "8 base logs (small entries, fragmented entry in the middle/at the end, batch in the middle/at the end, 2 and 3 files, key fragmentation): every truncation offset of the newest file and every single-byte overwrite x {^0x01,^0x80,0x00,0xFF,+1} (all positions for files <=4 KiB; record headers, +-16 around record boundaries and stride 251 otherwise). " +
-			"Oracle: ReplayWALDir delivers a subsequence of the appended entries (all four fields equal) that contains every entry completely written before the first damaged byte and all entries of older files; the engine opens, shows those entries, shows nothing that was not written, keeps the log files, accepts 2 writes and shows old+new after a clean close and a second recovery. Non-trivial = damage that falls before the end of some entry",
+			"Thorough tier: 5 more base logs (fragments that are exact multiples of the record size, two fragmented entries in a row, a 90 KB batch, a fragmented delete, four files), stride 3 instead of 251, and single-byte damage in every older file of the multi-file logs (entries of newer files are then optional, the files must survive). Oracle: ReplayWALDir delivers a subsequence of the appended entries (all four fields equal) that contains every entry completely written before the first damaged byte and all entries of older files; the engine opens, shows those entries, shows nothing that was not written, keeps the log files, accepts 2 writes and shows old+new after a clean close and a second recovery. Non-trivial = damage that falls before the end of some entry",
 		Assumptions: []string{"single damage per log; record boundaries come from an independent parser of the original file"},
 		Units: func(tier string) []string {
 			var us []string
 			names := sortedKeys(c10Bases)
+			if tier == "thorough" {
+				names = append(names, sortedKeys(c10BasesThorough)...)
+			}
 			for _, n := range names {
 				nsh := 2
 				if n == "frag-mid" || n == "three-files" || n == "bigkey" || n == "frag-last" {
 					nsh = 4
 				}
+				if tier == "thorough" {
+					nsh = 8
+				}
 				for s := 0; s < nsh; s++ {
 					us = append(us, fmt.Sprintf("%s/trunc/%d/%d", n, s, nsh))
 					us = append(us, fmt.Sprintf("%s/byte/%d/%d", n, s, nsh))
+				}
+				if tier == "thorough" {
+					// single-byte damage in the older files of the multi-file logs
+					files := map[string]int{"two-files": 1, "three-files": 2, "four-files": 3}[n]
+					for k := 0; k < files; k++ {
+						for s := 0; s < 4; s++ {
+							us = append(us, fmt.Sprintf("%s/old%d/%d/4", n, k, s))
+						}
+					}
 				}
 			}
 			return us
 		},
 		Run:    c10Unit,
 		Replay: func(v *fw.Violation) string { b, _ := json.Marshal(v.Witness); return "re-run: kvcheck one C10 quick " + v.Unit + "\nwitness: " + string(b) },
-		BudgetQuick: 110, BudgetThorough: 600,
+		BudgetQuick: 110, BudgetThorough: 900,
 	})
 }
